@@ -840,6 +840,10 @@ class MutableDict(Mutable, Dict[_KT, _VT]):
         dict.update(self, *a, **kw)
         self.changed()
 
+    def __ior__(self, other: Any) -> MutableDict[_KT, _VT]:  # type: ignore[override,misc] # noqa: E501
+        self.update(other)
+        return self
+
     if TYPE_CHECKING:
 
         @overload
